@@ -38,7 +38,11 @@ def shards(tier, seed):
 
 def make_value(rnd, counter):
     mark = "VALMARK%05dX" % counter
-    k = rnd.randrange(9)
+    k = rnd.randrange(11)
+    if k == 9:
+        return "", mark, "empty_text"
+    if k == 10:
+        return b"", mark, "empty_bytes"
     if k == 0:
         return counter, mark, "int"
     if k == 1:
@@ -346,7 +350,7 @@ def finalize(m, tier, seed):
     for k in ALL_KINDS:
         if not m["counters"].get("ops." + k):
             inc.append("configuration %s never exercised" % k)
-    for k in ("plaintext_scans", "reads", "store.dataframe", "store.bytes", "store.pickle", "store.none"):
+    for k in ("plaintext_scans", "reads", "store.dataframe", "store.bytes", "store.pickle", "store.none", "store.empty_text", "store.empty_bytes"):
         if not m["counters"].get(k):
             inc.append("coverage class %s empty" % k)
     return {"inconclusive": inc}
